@@ -146,6 +146,10 @@ func c19Ops() []c19op {
 		}
 	}
 	return []c19op{
+		{"AddFact(property-shaped body)", true, true, false, func(ctx *core.Context, loc *core.Location) (string, error) {
+			// one '!' key: stored as the property fact !x1.enabled of id x1, whatever id is given
+			return loc.AddFact(ctx, "x1", core.Map{"id": "x1", "!enabled": "no", "payload": "p"})
+		}},
 		{"AddFact(f2)", true, true, false, func(ctx *core.Context, loc *core.Location) (string, error) {
 			return loc.AddFact(ctx, "f2", core.Map{"k": "v2"})
 		}},
@@ -591,7 +595,7 @@ func init() {
 	lib.Register(&lib.Check{
 		ID:    "C19",
 		Level: "model_checking",
-		Rule: "exhaustive product: 16 protection states (write key x read key x read-only x disabled) x 13 caller contexts (no/wrong/right write key x no/wrong/right read key, plus SubContexts) x 29 operations (whole Location API, Env.* location functions from RunJavascript, events whose rule actions mutate) x 4 set-up histories x {indexed, linear} x {core.Location, location obtained from sys.System}; oracle from the statement with a privileged before/after snapshot and an unprotected twin; " +
+		Rule: "exhaustive product: 16 protection states (write key x read key x read-only x disabled) x 13 caller contexts (no/wrong/right write key x no/wrong/right read key, plus SubContexts) x 30 operations (whole Location API, Env.* location functions from RunJavascript, events whose rule actions mutate) x 4 set-up histories x {indexed, linear} x {core.Location, location obtained from sys.System}; oracle from the statement with a privileged before/after snapshot and an unprotected twin; " +
 			"states = (driver, state, set-up, protection, caller) tuples, transitions = operations executed; non-trivial = distinct protected cases whose outcome matched",
 		Assumptions: []string{
 			"classification of operations as mutating / revealing as argued at the top of c19.go; RuleEnabled and GetParents are unclassified",
